@@ -343,10 +343,13 @@ def _alloc_candidates_multiple_providers(rg_ctx, rw_ctx, rp_candidates):
                 resource_class=rc_cache.string_from_id(rp.rc_id),
                 amount=rg_ctx.resources[rp.rc_id]))
 
-    # Next, build up a set of allocation requests. These allocation requests
+    # Next, build up a list of allocation requests. These allocation requests
     # are AllocationRequest objects, containing resource provider UUIDs,
-    # resource class names and amounts to consume from that resource provider
-    alloc_requests = set()
+    # resource class names and amounts to consume from that resource provider.
+    # NOTE: this must not be a set. AllocationRequest equality ignores the
+    # anchor, and the same request (e.g. one using only a sharing provider)
+    # is needed once per anchor tree to be merged with the other groups.
+    alloc_requests = []
 
     # Let's look into each tree
     for root_id, alloc_dict in tree_dict.items():
@@ -389,7 +392,7 @@ def _alloc_candidates_multiple_providers(rg_ctx, rw_ctx, rp_candidates):
                                           anchor_root_provider_uuid=root_uuid,
                                           mappings=mappings)
             root_alloc_reqs.add(alloc_req)
-        alloc_requests |= root_alloc_reqs
+        alloc_requests.extend(root_alloc_reqs)
     return alloc_requests
 
 
